@@ -152,6 +152,16 @@ class Listings(Stage):
         if d.chance(0.3):
             initial = scripts.gen_matcher_text(d, rm.Gen(d, rm.vocab(specs), 1))
         items = scripts.gen_script(d, specs, 'new', list_heavy=True)
+        # the same text given to `filter` (extending a filter) and then to `list`: the listing must mean just that text
+        if d.chance(0.4):
+            V = rm.vocab(specs)
+            bare = [str(t) for t in V.get('type', [])[:8]] + ['wl_display', 'wl_registry', 'wl_callback', '2', '3']
+            x, t = d.choice(bare), d.choice(bare)
+            if d.chance(0.4):
+                t = t + ', ' + d.choice(bare)
+            pos = d.int(0, len(items))
+            items[pos:pos] = [['cmd', 'filter !'], ['cmd', 'filter ' + x, None, dict(alts=[x], excl=[])],
+                              ['cmd', 'filter ' + t, None, dict(alts=[a.strip() for a in t.split(',')], excl=[])], ['cmd', 'list ' + t], ['cmd', 'list']]
         # always end with a few listings so that every session has some
         g = rm.Gen(d, rm.vocab(specs), 1)
         for _ in range(d.int(1, 3)):
